@@ -27,6 +27,11 @@ impl Workflow {
 }
 #[derive(Debug)]
 pub struct SerErr {}
+impl SerErr {
+    // serde_yaml::Error: Display (`err.to_string()`): some text
+    #[verifier::external_body]
+    pub fn to_string(&self) -> (r: String) { unimplemented!() }
+}
 pub mod serde_yaml {
     use vstd::prelude::*;
     use super::{Workflow, yaml_of, SerErr};
